@@ -13,8 +13,7 @@ def _single_return(ex, outs, v, label):
             v.undecided("%s: %s %s" % (label, o.kind, o.info))
             return None
         if o.kind == "panic":
-            v.queries += 1
-            v.fail("%s: panic reachable: %s" % (label, o.info), dict(path=L.trace_text(o, 10)))
+            L.report_panic(v, ex, o, "%s: panic reachable: %s" % (label, o.info), dict(path=L.trace_text(o, 10)))
     return rets
 
 
